@@ -51,6 +51,11 @@ fn hostile_det_spec(rng: &mut Prng) -> Spec {
     }
     let kind = spec.kind.unwrap();
     spec.seed = Some(hostile_seed(rng, kind));
+    if kind == Kind::XorShift && spec.core.is_none() && rng.chance(1, 6) {
+        let src = gen_long_zero_source(rng);
+        spec.seed = Some(if rng.chance(1, 2) { SeedSpec::FromRng(src) } else { SeedSpec::TryFromRng(src) });
+        spec.variant = "hostile_det_long_zero_source".into();
+    }
     spec.pre = rng.below(pre_range(kind) + 1) as u32;
     let long = rng.chance(1, 6);
     let n = if long { rng.range(60, 220) } else { rng.range(1, 40) };
